@@ -4,6 +4,7 @@ import (
 	"errors"
 	"fmt"
 	"reflect"
+	"simrt"
 	"sort"
 	"strings"
 	"time"
@@ -79,6 +80,23 @@ func (c *CfgCore) Verify() error {
 		err = fmt.Errorf("%w: lo=%d hi=%d forbidden=%v", errVerify, c.Lo, c.Hi, c.Forbidden)
 	}
 	if r := curRun; r != nil {
+		r.verifyCalls++
+		if r.sc.VerifyStall != 0 && r.verifyCalls == r.sc.VerifyStall && r.phase == "clients" && !r.probing {
+			// a Verify that takes long (it consults something slow): the monitor
+			// is busy in user code and comes back only once everybody else has
+			// gone idle - callers' own contexts are all that bounds their calls
+			st := stall{from: time.Now()}
+			simrt.SleepIdle(2 * time.Hour)
+			st.to = time.Now()
+			r.stalls = append(r.stalls, st)
+			r.probe("verify-stalled-the-monitor")
+		}
+		if err == nil && r.sc.FlakyVerify && r.enabledOK {
+			if _, installed := r.byPtr[c]; installed {
+				err = fmt.Errorf("%w: verifying an installed config once more (the world has changed)", errVerify)
+				r.probe("flaky-verify-fired")
+			}
+		}
 		r.onVerify(c, err)
 	}
 	return err
